@@ -14,7 +14,7 @@ Extraction "model.ml"
   Filter.parse Escape.ldap_escape Escape.ldap_unescape Dn.dn_escape Entry.construct
   Result.result_of_tree Result.success Result.non_error Result.cmp_equal Result.cmp_non_error
   UrlParams.get_url_params
-  RequestSeq.run_calls Request.cleared
+  RequestSeq.run_calls RequestSeq.run_csteps RequestSeq.handle_of RequestSeq.no_mods Request.cleared
   Controls.paged_results Controls.sync_request Controls.pre_read Controls.post_read Controls.assertion_of Controls.matched_values_of
   Controls.proxy_auth Controls.txn_spec Controls.manage_dsa_it Controls.relax_rules Controls.make_critical
   Controls.whoami Controls.starttls Controls.start_txn Controls.passmod Controls.end_txn
